@@ -30,7 +30,9 @@ pub fn generate(g: &mut Gen) {
             let n2 = c2 * h2 * w2;
             if n2 == n {
                 g.push(format!("t.reshape {} T {} {} {}", qt(&t), c2, h2, w2), Tol::Exact, "reshape/3d->3d/equal", nt);
-            } else if (n2 == n + 1 || n2 + 1 == n || n2 == 2 * n) && (c + h + w + c2 + h2 + w2) % 3 == 0 {
+            } else if ((n2 == n + 1 || n2 + 1 == n || n2 == 2 * n) && (c + h + w + c2 + h2 + w2) % 3 == 0)
+                || ((c == c2) as u8 + (h == h2) as u8 + (w == w2) as u8 == 2) {
+                // (… and every target that differs from the source in exactly one extent)
                 g.push(format!("t.reshape {} T {} {} {}", qt(&t), c2, h2, w2), Tol::Exact, "reshape/3d->3d/unequal", true);
             }
         }
